@@ -7,13 +7,15 @@ executing = handed to the worker and not yet finished.  Contract: after every ha
 The job-status observations are a scripted input realised with real lock / result files.
 """
 
+import time
+
 from props import _schedharness as H
 
 INF = H.INF
 
 # name -> number of jobs
-EXH_QUICK = {"indep2": 2, "indep3": 3, "indep4": 4, "split2": 2, "split3": 3, "split4": 4, "chain3": 3, "fanout": 3, "split2>b": 4, "split2+chain2": 4, "one+chain2": 3, "chain3+b>split2": 6, "diamond+one": 5}
-EXH_THOROUGH = {"indep5": 5, "split5": 5, "split3>b": 6, "split2,split2>c": 8, "chain2+chain2": 4, "split4>b": 8, "chain3+b>split3": 7, "split2+plain>c": 5, "chain6": 6, "indep6": 6, "split6": 6}
+EXH_QUICK = {"indep2": 2, "indep3": 3, "indep4": 4, "split2": 2, "split3": 3, "split4": 4, "chain3": 3, "split2>b": 4, "split2+chain2": 4, "one+chain2": 3, "chain3+b>split2": 6}
+EXH_THOROUGH = {"fanout": 3, "diamond+one": 5, "indep5": 5, "split5": 5, "split3>b": 6, "split2,split2>c": 8, "chain2+chain2": 4, "split4>b": 8, "chain3+b>split3": 7, "split2+plain>c": 5, "chain6": 6, "indep6": 6, "split6": 6}
 SAMPLED = {"indep7": 7, "indep8": 8, "indep10": 10, "split8": 8, "split10": 10, "chain10": 10, "split5>b+split3": 13, "2x chain4 + split2": 10, "indep6": 6, "split6": 6}
 
 
@@ -121,7 +123,10 @@ def run(ctx):
                     tot[k] = tot.get(k, 0) + v
         for k in sorted(tot):
             ctx.note(f"{k}: {tot[k]}")
-        for line in e2e.result():
+        t_pool = time.time() - ctx.t0
+        lines = e2e.result()
+        ctx.note(f"timing: enumeration finished after {t_pool:.0f} s, end-to-end runs after {time.time() - ctx.t0:.0f} s")
+        for line in lines:
             ctx.note("end-to-end replay aid (real workers, timing dependent, NOT part of the verdict): " + line)
     finally:
         H.cleanup()
